@@ -37,6 +37,16 @@ class FalsyV(VSub):
         return False
 
 
+class HashV(VSub):
+    """a vertex class with value semantics on its uid (legal: __eq__/__hash__ that read instance state; C10: a loader that
+    hashes a vertex before its state is restored breaks on it)"""
+    def __eq__(self, other):
+        return isinstance(other, HashV) and other.uid == self.uid
+
+    def __hash__(self):
+        return hash(self.uid)
+
+
 class DSub(DirectedEdge):
     pass
 
@@ -53,6 +63,10 @@ KIND_CLS = {"KVertex": Vertex, "KVertexSub": VSub, "KUniverse": Universe, "KDir"
             "KUnd": UnDirectedEdge, "KUndSub": USub, "KOther": Other, "KLaws": UniverseLaws}
 CLS_KIND = {v: k for k, v in KIND_CLS.items()}
 CLS_KIND[FalsyV] = "KVertexSub"
+CLS_KIND[HashV] = "KVertexSub"
+# class choice of a generated NV op: plain Vertex, a subclass, a subclass whose instances are FALSY (legal: the library
+# must test `is None`, never truthiness)
+NV_CLASSES = [False, False, False, False, False, True, True, 2, 2, 2]
 LINK_KINDS = ["KDir", "KDirSub", "KUnd", "KUndSub", "KOther"]
 VERTEX_KINDS = ["KVertex", "KVertexSub", "KUniverse"]
 EXN = {"TypeError", "ValueError", "IndexError", "KeyError", "AttributeError", "NotImplementedError"}
@@ -113,9 +127,12 @@ class World:
     def _container(self, xs):
         """the same sequence as a list, a tuple, a one-shot iterator or a generator (any iterable is accepted by the
         constructors; the choice depends on the allocation count only, so runs are reproducible)"""
-        m = len(self.objs) % 4
+        m = max(0, len(self.objs) % 6 - 2)          # list (half of the calls), tuple, one-shot iterator, generator
         if m == 0:
-            return list(xs)
+            # a caller may pass the SAME list object to several constructors: reuse the list handed in earlier for the
+            # same contents (a library that keeps or edits its argument then corrupts the later object or this one)
+            shared = self.__dict__.setdefault("_shared_lists", {})
+            return shared.setdefault(tuple(id(x) for x in xs), list(xs))
         if m == 1:
             return tuple(xs)
         if m == 2:
@@ -176,7 +193,7 @@ class World:
         if t == "NV":
             us = [g(i, U) for i in op[2]]
             ls = [g(i, L) for i in op[3]]
-            cls = FalsyV if op[1] == 2 else VSub if op[1] else Vertex
+            cls = HashV if op[1] == 3 else FalsyV if op[1] == 2 else VSub if op[1] else Vertex
             kw = {}
             if us:
                 kw["universes"] = self._container(us)
@@ -423,8 +440,11 @@ def gen_history(rng, weights, nops, seed_ops=None):
                 if len(vs) < 6:
                     k = rng.choice([0, 0, 1, 2]) if us else 0
                     uu = [pick(us) for _ in range(k)]
+                    prev = [o[2] for o in ops if o[0] == "NV" and o[2]]
+                    if prev and rng.random() < 0.4:
+                        uu = list(prev[-1])        # the same universes= contents as an earlier vertex (callers reuse one list)
                     ll = [pick(ls)] if ls and rng.random() < 0.15 else []
-                    op = ["NV", rng.random() < 0.25, uu, ll]
+                    op = ["NV", rng.choice(NV_CLASSES), uu, ll]
             elif t == "NU":
                 if len(us) < 3:
                     k = rng.choice([0, 0, 1, 2, 3]) if vs else 0
